@@ -1122,8 +1122,23 @@ func ruleUsedMarkingMatchesEmission(c *Ctx, rule string) {
 				default:
 					// a local map: filled by collectImportsFromType(T, ...)
 					for _, cs := range callsIn(fn) {
-						if cs.common.StaticCallee() != nil && cs.common.StaticCallee().Name() == "collectImportsFromType" && len(cs.common.Args) >= 4 && resolve(cs.arg(3)) == resolve(mval) {
-							t := strings.Join(s.eval(cs.arg(0)), "|")
+						// the import walker: no results, one go/types.Type parameter; the set and the type are found by
+						// what they are, not by their position
+						cal := cs.common.StaticCallee()
+						if cal == nil || cal.Signature.Results().Len() != 0 || fnPkgPath(cal) != genPkg {
+							continue
+						}
+						typeIdx, fills := -1, false
+						for i, prm := range cal.Params {
+							if prm.Type().String() == "go/types.Type" && typeIdx < 0 {
+								typeIdx = i
+							}
+							if i < len(cs.common.Args) && resolve(cs.arg(i)) == resolve(mval) {
+								fills = true
+							}
+						}
+						if typeIdx >= 0 && typeIdx < len(cs.common.Args) && fills {
+							t := strings.Join(s.eval(cs.arg(typeIdx)), "|")
 							if strings.HasPrefix(t, "field:internal/kessoku.Return.Type(") {
 								owner := strings.TrimSuffix(strings.TrimPrefix(t, "field:internal/kessoku.Return.Type("), ")")
 								want = append(want, "field:internal/kessoku.Return.ASTTypeExpr("+owner+")")
